@@ -9,7 +9,9 @@ EXPLANATION = (
     "Contract-based (all inputs): _split_op_value, _get_value_type, _get_desc_filter, _add_priorities (every PRIORITY(-n) spelling), "
     "_process_query (CLI normalisation), dates.is_short_date_spec / is_long_date_spec / _is_relative_date_spec / is_date_spec / "
     "from_date_spec dispatch / _from_relative_date_spec (sign, count, unit; month and year arithmetic through an assumed relativedelta "
-    "contract) are verified against clauses taken from the statement. The listener's stack discipline over every parse tree is "
+    "contract) are verified against clauses taken from the statement; enterGroup_by_body / enterOrder_by_body compile a clause into the "
+    "dimensions / keys its atoms spell, in order, `none` contributing no grouping dimension (lists of <= 2 / 3 atoms, bounded-symbolic). "
+    "The listener's stack discipline over every parse tree is "
     "covered by the bounded round trip: query structures are rendered to text by a spec-side renderer and compiled back."
 )
 ASSUMPTIONS = ["A-ANTLR-TREE for the query grammar", "dateutil.relativedelta months/years arithmetic (end-of-month clamping) is trusted",
